@@ -404,11 +404,13 @@ fn decode_history<F: Family>(input: &Input, ctx: &mut Ctx) -> CaseResult {
     if t.chance(1, 64) {
         for k in 0..6u8 {
             let hdr = [0x30 | (k & 1), 0xFF, 0xFF, 0xFF, 0x7F, 0x00];
-            let steps = [Step::Chunk(5), Step::Pending, Step::Pending, Step::Pending];
+            // (the header stage reads one byte at a time: five ready reads, then the transport is not ready)
+            let steps = [Step::Chunk(1), Step::Chunk(1), Step::Chunk(1), Step::Chunk(1), Step::Chunk(1), Step::Pending, Step::Pending, Step::Pending];
             let mut rd = ScriptedReader::new(&hdr[..5 + (k as usize % 2)], &steps);
             let mut state: GenericPollPacketState<F::Header> = GenericPollPacketState::default();
             let r = sio::poll_n(GenericPollPacket::new(&mut state, &mut rd), 2);
             ensure!(r.is_none(), "poll decoder finished after a bare header that declares 268,435,455 body bytes: {:?}", r.map(|x| x.map(|y| y.0)));
+            ensure!(matches!(&state, GenericPollPacketState::Body(_)), "MQV-INTERNAL: the abandoned decode did not reach the body stage");
         }
         abandoned += 6;
         ctx.label("abandoned-maximal-declared-lengths");
